@@ -34,6 +34,7 @@ def intent_ladder(prog, f: FuncInfo, subject: str) -> Dict[str, List[ast.stmt]]:
 def run(chk: Check) -> None:
     prog = chk.prog
     dispatch(chk)
+    rpc_reply(chk)
     announcement(chk)
     subscriptions(chk)
     loop_communicator(chk)
@@ -126,6 +127,39 @@ def dispatch(chk: Check) -> None:
         sends = [x for x in calls_in_func(f, 'broadcast_send')]
         ok = len(sends) == 1 and any(k.arg == 'subject' and norm(k.value) == f'Intent.{intent}' for k in sends[0].keywords)
         chk.ob('TAB-controllers', f, ok, f'{meth} broadcasts with subject Intent.{intent}', kind='broadcast-subject')
+
+
+def rpc_reply(chk: Check) -> None:
+    """The reply to a control message is what the SAME call returns to a direct caller: on every path of the scheduled
+    callback the control method is called (exactly once, unconditionally) before the reply future is resolved, and the
+    value it is resolved with is that call's result (after awaiting nested futures)."""
+    from ..decisions import paths_under, value_on_path
+    prog = chk.prog
+    rc = prog.func('processes.Process._schedule_rpc.run_callback')
+    outer = prog.func('processes.Process._schedule_rpc')
+    ff = chk.ctx.facts.analyse(rc)
+    cfg = ff.cfg
+    cbname = outer.params[1]
+    cb_calls = [c for c in calls_in_func(rc) if isinstance(c.func, ast.Name) and c.func.id == cbname]
+    cb_nodes = [m for c in cb_calls for m in cfg.nodes_containing(c)]
+    sr = [n for n in cfg.nodes if any(last_name(c) == 'set_result' and norm(c.func.value) == 'kiwi_future' for c in _calls(n))]
+    chk.ob('FWD-rpc-reply', rc, len(cb_calls) == 1 and bool(sr), 'the scheduled callback calls the control method at one site and replies through the kiwi future', kind='sites')
+    if len(cb_calls) != 1 or not sr:
+        return
+    ok = all(cfg.must_pass(cfg.entry, [n], lambda m: m in cb_nodes, edge_ok=no_exc) for n in sr)
+    chk.ob('FWD-rpc-reply', rc, ok, 'no reply is sent without the control method having been called (whatever the state of the process: a direct caller\'s call is not skipped either)',
+           kind='called-before-every-reply')
+    # the value replied
+    asg = [n for n in cfg.nodes if n.kind == 'stmt' and isinstance(n.ast, ast.Assign) and n.ast.value is cb_calls[0]]
+    var = norm(asg[0].ast.targets[0]) if asg else None
+    good = var is not None
+    for n in sr:
+        call = [c for c in _calls(n) if last_name(c) == 'set_result'][0]
+        good &= len(call.args) == 1 and norm(call.args[0]) == var
+    # between the call and the reply the variable is only ever re-bound to its own awaited value
+    rebinds = [n for n in cfg.nodes if n.kind == 'stmt' and isinstance(n.ast, ast.Assign) and var is not None and norm(n.ast.targets[0]) == var and n not in asg]
+    good &= all(isinstance(n.ast.value, ast.Await) and norm(n.ast.value.value) == var for n in rebinds)
+    chk.ob('FWD-rpc-reply', rc, good, 'the reply is the value the control method returned (nested futures awaited), nothing else', kind='reply-is-call-result')
 
 
 def announcement(chk: Check) -> None:
